@@ -54,6 +54,11 @@ pub struct HistItem {
     pub src: Src,
     pub entry: Entry,
     pub on_thread: bool,
+    /// which plugins the earlier compilation was set up with: 0 = the same as the target
+    /// (driver clock plugin + builtins + scheduler), 1 = builtins + scheduler only,
+    /// 2 = builtins only. Plugin registration interns the plugin function names.
+    #[serde(default)]
+    pub ctx_variant: u8,
 }
 
 #[derive(Clone, Copy, Debug, Serialize, Deserialize, PartialEq)]
@@ -107,6 +112,17 @@ fn mask_arg_ids(s: &str) -> String {
 
 fn hex(x: u64) -> String {
     format!("{x:016x}")
+}
+
+fn make_ctx_variant(path: Option<PathBuf>, variant: u8) -> mimium_lang::ExecContext {
+    if variant == 0 {
+        return make_ctx(path);
+    }
+    let mut ctx = mimium_lang::ExecContext::new(std::iter::empty(), path, mimium_lang::Config::default());
+    if variant == 1 {
+        ctx.add_system_plugin(mimium_scheduler::get_default_scheduler_plugin());
+    }
+    ctx
 }
 
 fn make_ctx(path: Option<PathBuf>) -> mimium_lang::ExecContext {
@@ -225,9 +241,10 @@ pub fn digest_target(src: &str, path: Option<PathBuf>, samples: u64, dump: bool)
 fn run_history_item(h: &HistItem) -> (bool, bool) {
     let (src, path) = h.src.load();
     let entry = h.entry;
+    let variant = h.ctx_variant;
     let work = move || {
         guarded(|| {
-            let mut ctx = make_ctx(path.clone());
+            let mut ctx = make_ctx_variant(path.clone(), variant);
             ctx.prepare_compiler();
             let comp = ctx.get_compiler().unwrap();
             match entry {
@@ -558,6 +575,7 @@ pub fn gen_c15(seed: u64, corpus: &[String]) -> DetRun {
             src,
             entry: *r.pick(&[Entry::Mir, Entry::Bytecode, Entry::Bytecode, Entry::Wasm, Entry::RunVm]),
             on_thread: r.chance(1, 3),
+            ctx_variant: *r.pick(&[0u8, 0, 0, 1, 2]),
         });
     }
     DetRun {
